@@ -1357,3 +1357,5 @@ benign('benign-c15-char-length-prefilter', 'C15', 'crates/erltf_serde/src/de.rs'
 canary('c20-mapset-guard-and', 'C20', 'crates/edp_elixir_terms/src/map_set.rs', 'if tuple.len() != 3 || tuple[0].atom_name() != Some("set") {', 'if tuple.len() != 3 && tuple[0].atom_name() != Some("set") {', 'PANIC:')
 canary('c20-iterator-wrapping-step', 'C20', 'crates/edp_elixir_terms/src/range.rs', "self.current = self.current.saturating_add(self.range.step);", "self.current = self.current.wrapping_add(self.range.step);", 'wrapping_add')
 benign('benign-c20-iterator-checked-step', 'C20', 'crates/edp_elixir_terms/src/range.rs', "self.current = self.current.saturating_add(self.range.step);", "self.current = self.current.checked_add(self.range.step).unwrap_or(i64::MAX);")
+canary('c19-table-guard-across-reply-wait', 'C19', 'crates/edp_node/src/node.rs', "        tracing::trace!(\"Looking up connection for node: {}\", remote_node);\n        if let Some(conn) = self.connections.get(remote_node) {", "        tracing::trace!(\"Looking up connection for node: {}\", remote_node);\n        let conn = self.connections.get(remote_node);\n        if let Some(conn) = conn.as_ref() {", 'table-guard-across')
+benign('benign-c19-clone-arc-release-guard', 'C19', 'crates/edp_node/src/node.rs', "        tracing::trace!(\"Looking up connection for node: {}\", remote_node);\n        if let Some(conn) = self.connections.get(remote_node) {", "        tracing::trace!(\"Looking up connection for node: {}\", remote_node);\n        let conn = self.connections.get(remote_node).map(|c| c.value().clone());\n        if let Some(conn) = conn {")
